@@ -29,8 +29,14 @@ def expected(ann, value):
             "bytes": lambda t: str(value).encode()}[ann](text)
 
 
-def make_function(shape, anns, defaults):
-    """shape = (nPO, nPK, hasVP, nKO, hasVK)."""
+FLAVOURS = ("function", "method", "classmethod", "staticmethod", "instance", "instance_unhashable", "class", "class_with_call",
+            "method_starself")
+
+
+def make_function(shape, anns, defaults, flavour="function"):
+    """shape = (nPO, nPK, hasVP, nKO, hasVK).  Returns (target, src, names, kinds, ann_by_name); `target` is the callable
+    handed to bind / wrap: a plain function, a bound method, a class / static method, a callable instance (hashable or
+    not), or a class (whose __init__ takes the parameters)."""
     npo, npk, vp, nko, vk = shape
     names, parts, kinds = [], [], []
     k = 0
@@ -57,10 +63,34 @@ def make_function(shape, anns, defaults):
         p(f"ko{i}", "KO")
     if vk:
         p("kw", "VK", "**")
-    src = f"def f({', '.join(parts)}):\n    return ('called', locals())\n"
+    plist = ", ".join(parts)
+    got = "{k_: v_ for k_, v_ in locals().items() if k_ not in ('self', 'cls')}"
+    # the receiver goes before the positional-only marker
+    recv = lambda r: (f"{r}, {plist}" if plist else r) if not npo else f"{r}, {plist}"
+    if flavour == "function":
+        src = f"def f({plist}):\n    return ('called', {got})\ntarget = f\n"
+    elif flavour == "method":
+        src = f"class K:\n    def f({recv('self')}):\n        return ('called', {got})\ntarget = K().f\n"
+    elif flavour == "method_starself":
+        # the receiver is collected by *args (legal Python): only for shapes that start with *args
+        a0 = anns[0]
+        src = (f"class K:\n    def f({plist}):\n        d = {got}\n        d['args'] = d['args'][1:]\n        return ('called', d)\n"
+               f"target = K().f\n")
+    elif flavour == "classmethod":
+        src = f"class K:\n    @classmethod\n    def f({recv('cls')}):\n        return ('called', {got})\ntarget = K.f\n"
+    elif flavour == "staticmethod":
+        src = f"class K:\n    @staticmethod\n    def f({plist}):\n        return ('called', {got})\ntarget = K.f\n"
+    elif flavour in ("instance", "instance_unhashable"):
+        extra = "    __hash__ = None\n    def __eq__(self, other):\n        return self is other\n" if flavour == "instance_unhashable" else ""
+        src = f"class K:\n{extra}    def __call__({recv('self')}):\n        return ('called', {got})\ntarget = K()\n"
+    elif flavour in ("class", "class_with_call"):
+        extra = "    def __call__(self, x: int):\n        return x\n" if flavour == "class_with_call" else ""
+        src = f"class K:\n{extra}    def __init__({recv('self')}):\n        self.got = {got}\ntarget = K\n"
+    else:
+        raise ValueError(flavour)
     ns = {"decimal": decimal, "fractions": fractions}
     exec(src, ns)
-    f = ns["f"]
+    f = ns["target"]
     ann_by_name = {}
     k = 0
     for nm in names:
@@ -69,10 +99,20 @@ def make_function(shape, anns, defaults):
     return f, src, names, kinds, ann_by_name
 
 
+def flavour_applies(flavour, shape):
+    npo, npk, vp, nko, vk = shape
+    if flavour == "method_starself":
+        return bool(vp) and npo == 0 and npk == 0
+    return True
+
+
 def shapes(max_params=5):
     for npo, npk, vp, nko, vk in itertools.product(range(3), range(3), (0, 1), range(3), (0, 1)):
         if npo + npk + vp + nko + vk <= max_params:
             yield (npo, npk, vp, nko, vk)
+
+
+RESERVED = ("self", "__binding", "args", "kwargs", "binding", "call", "obj", "cls")
 
 
 def calls_for(shape, names, kinds):
@@ -97,6 +137,9 @@ def calls_for(shape, names, kinds):
                 extras = [[]]
                 if vk:
                     extras += [["extra1"], ["extra1", "extra2"]] + [[c] for c in collide]
+                    # names the forwarders themselves might reserve: Python accepts every one of them as a keyword
+                    if npos == P and not use_pk and not use_ko:
+                        extras += [[r] for r in RESERVED]
                 for ex in extras:
                     k2 = dict(kw)
                     for e in ex:
@@ -104,19 +147,28 @@ def calls_for(shape, names, kinds):
                     yield tuple(raw() for _ in range(npos)), k2
 
 
-def check_case(kind, shape, anns, defaults, args, kwargs):
+def _view(res, flavour):
+    if flavour in ("class", "class_with_call"):
+        return "called", res.got
+    return res
+
+
+def check_case(kind, shape, anns, defaults, args, kwargs, flavour="function"):
     """Returns None when the property holds on this case, else a description of the failure."""
     from typelib import binding
-    f, src, names, kinds, ann_by_name = make_function(shape, anns, defaults)
-    # the oracle is Python itself: call the undecorated function with the raw arguments
+    f, src, names, kinds, ann_by_name = make_function(shape, anns, defaults, flavour)
+    # the oracle is Python itself: call the undecorated callable with the raw arguments
     try:
-        _, bound_raw = f(*args, **kwargs)
+        _, bound_raw = _view(f(*args, **kwargs), flavour)
         accepted = True
     except TypeError:
         accepted = False
-    target = binding.bind(f) if kind == "bind" else binding.wrap(f)
     try:
-        got = target(*args, **kwargs)
+        target = binding.bind(f) if kind == "bind" else binding.wrap(f)
+    except Exception as e:
+        return f"{kind}({flavour}) itself raised {e!r}"
+    try:
+        got = _view(target(*args, **kwargs), flavour)
         raised = None
     except TypeError as e:
         got, raised = None, e
@@ -165,16 +217,30 @@ def enumerate_cases(seed=0, limit=None, max_params=5):
                 for args, kwargs in calls_for(shape, names, kinds):
                     for kind in ("bind", "wrap"):
                         yield {"kind": kind, "shape": list(shape), "anns": anns, "defaults": defaults,
-                               "nargs": len(args), "kwargs": sorted(kwargs), "src": src}
+                               "nargs": len(args), "kwargs": sorted(kwargs), "src": src, "flavour": "function"}
                         n += 1
                         if limit and n >= limit:
                             return
 
 
+def enumerate_flavours(max_params=3):
+    """Methods, class / static methods, callable instances (hashable or not) and classes: every shape of up to
+    `max_params` parameters, one annotation rotation, no defaults."""
+    for shape in shapes(max_params):
+        for flavour in FLAVOURS[1:]:
+            if not flavour_applies(flavour, shape):
+                continue
+            f, src, names, kinds, _ = make_function(shape, ANN, False, flavour)
+            for args, kwargs in calls_for(shape, names, kinds):
+                for kind in ("bind", "wrap"):
+                    yield {"kind": kind, "shape": list(shape), "anns": ANN, "defaults": False, "nargs": len(args),
+                           "kwargs": sorted(kwargs), "src": src, "flavour": flavour}
+
+
 def run_case(case):
     args = tuple(raw() for _ in range(case["nargs"]))
     kwargs = {k: raw() for k in case["kwargs"]}
-    return check_case(case["kind"], tuple(case["shape"]), case["anns"], case["defaults"], args, kwargs)
+    return check_case(case["kind"], tuple(case["shape"]), case["anns"], case["defaults"], args, kwargs, case.get("flavour", "function"))
 
 
 def flags_of(shape):
@@ -182,14 +248,14 @@ def flags_of(shape):
     return "".join("T" if x else "F" for x in (npo > 0, nko > 0, bool(vp), bool(vk), npk > 0))
 
 
-def search(seed=0, limit=None, row=None, stop_at=10):
+def search(seed=0, limit=None, row=None, stop_at=10, flavours=True):
     """Bounded search for failing cases on the real code."""
     fails, n, distinct = [], 0, set()
-    for case in enumerate_cases(seed, limit):
+    for case in itertools.chain(enumerate_flavours() if flavours else (), enumerate_cases(seed, limit)):
         if row is not None and flags_of(case["shape"]) != row:
             continue
         n += 1
-        distinct.add((tuple(case["shape"]), case["nargs"], tuple(case["kwargs"]), case["kind"], case["defaults"]))
+        distinct.add((tuple(case["shape"]), case["nargs"], tuple(case["kwargs"]), case["kind"], case["defaults"], case.get("flavour")))
         r = run_case(case)
         if r is not None:
             fails.append(dict(case, failure=r, row=flags_of(case["shape"])))
@@ -211,3 +277,82 @@ def metadata_case():
     if getattr(w, "__wrapped__", None) is not target:
         bad.append("__wrapped__")
     return bad
+
+
+def history_cases():
+    """bind / wrap applied in sequence: a subclass (or an instance of one) of a class that was wrapped earlier, wrapping or
+    binding twice, wrapping what was bound.  Returns descriptions of failures."""
+    from typelib import binding
+    bad = []
+
+    class Base:
+        def __init__(self, a: int):
+            self.a = a
+
+    class Child(Base):
+        def __init__(self, a: int, b: float):
+            super().__init__(a)
+            self.b = b
+
+        def __call__(self, x: int, *more: float):
+            return (x, more)
+
+    class Plain(Base):
+        pass
+    binding.wrap(Base)
+    if Base("1").a != 1:
+        bad.append("wrap(Base): Base('1').a != 1")
+    binding.wrap(Child)
+    c = Child(bytearray(b"1"), "2.5")
+    if (c.a, c.b) != (1, 2.5) or type(c.b) is not float:
+        bad.append(f"wrap(Child) after wrap(Base): Child received {(c.a, c.b)!r}, expected (1, 2.5)")
+    w = binding.wrap(c)
+    if w("3", "4") != (3, (4.0,)):
+        bad.append(f"wrap(instance of a subclass of a wrapped class): received {w('3', '4')!r}, expected (3, (4.0,))")
+    b = binding.bind(c)
+    if b("3", "4") != (3, (4.0,)):
+        bad.append(f"bind(instance of a subclass of a wrapped class): received {b('3', '4')!r}")
+    binding.wrap(Plain)
+    if Plain("5").a != 5:
+        bad.append("wrap(Plain) (inherits a wrapped __init__): Plain('5').a != 5")
+
+    def f(a: int, *rest: float, k: int = 0, **kw: int):
+        return (a, rest, k, kw)
+    want = (1, (2.0,), 3, {"z": 4})
+    # (wrap(bind(f)) is an instance of the known finding below: BoundRoutine.__call__'s own annotations are postponed)
+    for label, g in (("wrap(wrap(f))", binding.wrap(binding.wrap(f))), ("bind(wrap(f))", binding.bind(binding.wrap(f))),
+                     ("bind(f) twice", binding.bind(f))):
+        got = g("1", "2", k="3", z="4")
+        if got != want:
+            bad.append(f"{label}: received {got!r}, expected {want!r}")
+    return bad
+
+
+def postponed_annotation_case():
+    """Known finding C10-postponed-annotations: a callable defined under `from __future__ import annotations` carries its
+    annotations as text, and typelib resolves that text against the *calling* frames, not the callable's own module.
+    Returns a description of the failure when it still occurs (None when bind works)."""
+    import importlib.util
+    import os
+    import sys
+    import tempfile
+    from typelib import binding
+    src = ("from __future__ import annotations\nfrom decimal import Decimal as Dec10\n"
+           "def f(a: Dec10):\n    return a\n")
+    with tempfile.TemporaryDirectory() as d:
+        path = os.path.join(d, "c10_postponed_mod.py")
+        with open(path, "w") as fh:
+            fh.write(src)
+        spec = importlib.util.spec_from_file_location("c10_postponed_mod", path)
+        mod = importlib.util.module_from_spec(spec)
+        sys.modules["c10_postponed_mod"] = mod
+        try:
+            spec.loader.exec_module(mod)
+            try:
+                got = binding.bind(mod.f)("1.5")
+            except NameError as e:
+                return f"bind(f) for f(a: Dec10) defined under postponed annotations in another module raised {e!r}"
+            import decimal
+            return None if got == decimal.Decimal("1.5") else f"bind(f)('1.5') returned {got!r}"
+        finally:
+            sys.modules.pop("c10_postponed_mod", None)
